@@ -326,6 +326,48 @@ func vhChooseWide() []vsProd {
 	return prods
 }
 
+// vhChooseThree: an entry production in front of two further productions
+// that may refer to each other, to themselves and back to the entry: cycles
+// that do not pass through the production validate starts from.
+func vhChooseThree() []vsProd {
+	prods := make([]vsProd, 3)
+	pick := func(tag string, menu []vsTerm, max int) []vsTerm {
+		n := 1 + vChoose(tag+"n", max)
+		var terms []vsTerm
+		for k := 0; k < n; k++ {
+			terms = append(terms, menu[vChoose(tag, len(menu))])
+		}
+		return terms
+	}
+	lit, opt := vsTerm{kind: tLit}, vsTerm{kind: tLitOpt}
+	to := func(p int) vsTerm { return vsTerm{kind: tOther, other: p} }
+	// entry: @@P1 followed by nothing or an optional literal
+	entry := []vsTerm{to(1)}
+	if vBool("entrytail") {
+		entry = append(entry, opt)
+	}
+	prods[0].alts = [][]vsTerm{entry}
+	prods[1].alts = [][]vsTerm{
+		pick("p1a", []vsTerm{lit, opt, to(2), to(0)}, 2),
+		pick("p1b", []vsTerm{lit, to(2)}, 1),
+	}
+	prods[2].alts = [][]vsTerm{pick("p2", []vsTerm{lit, opt, to(1), to(0), {kind: tSelf}}, 2)}
+	return prods
+}
+
+func VH_C08_ValidateThree() {
+	prods := vhChooseThree()
+	strcts := vhBuildGraph(prods)
+	err := validate(strcts[0])
+	if vsLeftRecursive(prods) {
+		vReach("left-recursive")
+		vAssert(err != nil, "C08: left-recursive grammar accepted by validate")
+	} else {
+		vReach("not-left-recursive")
+		vAssert(err == nil, "C08: grammar without left recursion rejected by validate")
+	}
+}
+
 func VH_C08_ValidateWide() {
 	prods := vhChooseWide()
 	strcts := vhBuildGraph(prods)
